@@ -652,6 +652,21 @@ def run(tier, replay=None):
             out, code, err = synth.run_program(argv_for("assemble", ds.samples))
             if code != 0:
                 raise C.Infra(err[:300])
+            # the last record is turned into one that cannot be called (reference masked, no alternative allele: filter NOA):
+            # the callers then write missing calls, whose shape depends on the sample's own ploidy only
+            lines_ = out.split("\n")
+            for k_ in range(len(lines_) - 1, -1, -1):
+                if lines_[k_] and not lines_[k_].startswith("#"):
+                    f_ = lines_[k_].split("\t")
+                    end_ = next((x for x in f_[7].split(";") if x.startswith("END=")), f"END={int(f_[1]) + len(f_[3]) - 1}")
+                    f_[4] = "."
+                    f_[7] = f"REFMASKED;{end_};NVAR=0;SNVPOS=."
+                    f_[8] = "GT"
+                    f_[9:] = ["/".join(["."] * ds.ploidy[s_]) for s_ in ds.samples]
+                    lines_[k_] = "\t".join(f_)
+                    chk.count("dataset:uncallable-record(NOA)")
+                    break
+            out = "\n".join(lines_)
             hv = synth.bgzip_tabix_vcf(synth.write_text(os.path.join(work, f"ds{d}.haps.vcf"), out))
             for prog in ("call", "call-exact"):
                 base[prog] = run_prog(obs, argv_for(prog, ds.samples, hv), f"{prog} all samples")
